@@ -67,7 +67,8 @@ COMBOS = [(lv, tl, th) for lv in LEVELS for tl in (1, 2) for th in ('zero', 'est
 # cost times a, response times b; powers of two, so the scaled frame is exact in floating point.  a = 1/64 puts the
 # non-incremental cost of the variable-cost frames at >= 1/64: far from zero for the property, below 0.1 for an
 # order-of-magnitude test with a careless threshold
-PAIRS = [(2.0, 1.0), (1.0 / 64, 8.0), (1.0, 4.0), (0.5, 0.25), (1.0 / 64, 1.0), (4.0, 0.5)]
+PAIRS = [(2.0, 1.0), (1.0 / 64, 8.0), (1.0, 4.0), (0.5, 0.25), (1.0 / 64, 1.0), (4.0, 0.5),
+         (2.0 ** 36, 1.0), (2.0 ** 21, 2.0 ** -9)]    # spend booked in micro-units: figures far below 1e-8
 KINDS = ['one_geo', 'split', 'split_shuffled', 'unassigned_geos', 'extra_dates', 'all_shuffled']
 KEY_MEAN = 'C07:variable-cost-estimate-is-mean'
 IROAS_COLS = ['estimate', 'precision', 'lower', 'upper']
@@ -355,6 +356,17 @@ def part_label(mods, r, part, seed, nsims):
   if got != want:
     return [('ScenarioLabel', '_is_fixed_cost_scenario()=%r, non-incremental cost %g (cost pattern %d, cost x %g)' % (
         got, r['totcosts'] * part['a'], r['cv'], part['a']), None)]
+  # the label depends on the NON-incremental cost alone: however large the campaign spend itself is
+  try:
+    big = df.copy()
+    big.loc[(big['group'] == 2) & (big['period'].isin([1, 2])), 'cost'] *= 2.0 ** 38
+    got_big = bool(fit(mods, big, r['uc'])._is_fixed_cost_scenario())   # pylint: disable=protected-access
+  except Exception as e:  # pylint: disable=broad-except
+    return [('FitIsTotal', '%s: %s' % (type(e).__name__, e), None)]
+  if got_big != want:
+    return [('ScenarioLabel', '_is_fixed_cost_scenario()=%r once the treatment group\'s test-period spend is '
+             'multiplied by 2^38; non-incremental cost %g (cost pattern %d, cost x %g)' % (
+                 got_big, r['totcosts'] * part['a'], r['cv'], part['a']), None)]
   return []
 
 
